@@ -101,6 +101,8 @@ def axioms_for(terms):
             ax.append(z3.Implies(z3.And(base_eq, b1 == b2), POW(a1, b1) == POW(a2, b2)))
             ax.append(z3.Implies(z3.And(base_eq, b1 == b2 + 1, a1 != 0), POW(a1, b1) == POW(a2, b2) * a1))
             ax.append(z3.Implies(z3.And(base_eq, b2 == b1 + 1, a1 != 0), POW(a2, b2) == POW(a1, b1) * a1))
+            ax.append(z3.Implies(z3.And(base_eq, b1 == b2 + 2, a1 != 0), POW(a1, b1) == POW(a2, b2) * a1 * a1))
+            ax.append(z3.Implies(z3.And(base_eq, b2 == b1 + 2, a1 != 0), POW(a2, b2) == POW(a1, b1) * a1 * a1))
     # sqrt vs pow(., 1/2)
     sq = [a for n, a in ufs if n == "sqrt"]
     for a, b in pows:
